@@ -218,7 +218,9 @@ func (r *Runner) exec(a Action) {
 			r.doTransfer(in, t)
 		}
 	case "restore":
-		if in := r.live(r.resolve(a.Srv)); in != nil {
+		// (a restore on a leader that is already cut off from its majority is
+		// the documented hazard of Restore, not a case any property covers)
+		if in := r.live(r.resolve(a.Srv)); in != nil && !r.stillCut(in.ID()) {
 			r.doUserRestore(in, a.N, a.Arg)
 		}
 	case "shutdown":
